@@ -9,7 +9,8 @@ fns, opaque external types with assume_specification) and whose executable funct
     //@loop <k> <clause text>         invariant/decreases lines for the k-th loop (source order, from 0)
     //@subst <old>=><new>             literal replacement in signature+body (each counted, each listed in evidence)
     //@subst_re <regex>=><new>        same with a (DOTALL) regular expression, for multi-line `assert!(.., "fmt", ..)`
-    //@before <anchor>=><text>        ghost text inserted before first occurrence of anchor in the body
+    //@before <anchor>=><text>        ghost text (proof blocks only) inserted before the first occurrence of anchor
+    //@after <anchor>=><text>         ... or right after it
     //@end
 
     //@const <src path> <NAME>        emits `pub const NAME: <ty> = <literal>;` with the initialiser of /repo
@@ -109,7 +110,10 @@ def generate(unit, repo):
                     substs.append((a, b))
                 elif d.startswith("//@before "):
                     a, b = d[len("//@before "):].split("=>", 1)
-                    befores.append((a, b))
+                    befores.append((a, b, False))
+                elif d.startswith("//@after "):
+                    a, b = d[len("//@after "):].split("=>", 1)
+                    befores.append((a, b, True))
                 elif d.startswith("//@"):
                     raise ValueError("unknown directive: " + d)
                 i += 1
@@ -138,11 +142,13 @@ def generate(unit, repo):
                 sig = sig.replace(a, b)
                 body = body.replace(a, b)
                 info["substs"].append({"fn": spec, "old": a, "new": b, "count": n})
-            for a, b in befores:
+            for a, b, after in befores:
                 k = body.find(a)
                 if k < 0:
-                    raise ValueError("lost anchor: before %r in %s" % (a, spec))
-                body = body[:k] + b + " " + body[k:]
+                    raise ValueError("lost anchor: before/after %r in %s" % (a, spec))
+                if after:
+                    k += len(a)
+                body = body[:k] + " " + b + " " + body[k:]
             if loops:
                 pos = extract.loop_positions(body)
                 for k in sorted(loops, reverse=True):
